@@ -316,7 +316,13 @@ class Ctx:
     def handle_rejections(self, rejs, behaviours, replay_fn, describe=None):
         """behaviours: list of behaviour texts indexed by beh; replay_fn(text)-> list of rejections (fresh process)."""
         kf = load_known_findings(self.prop)
-        for r in rejs:
+        # every rejection is confirmed by a replay in a fresh process (a TLC launch each): once a dozen violations are confirmed the verdict
+        # cannot change any more, and a badly broken library must not turn a five-minute check into an hour of replays
+        maxconf = int(os.environ.get("HWV_MAXCONFIRM", "12"))
+        for n, r in enumerate(rejs):
+            if len(self.rejections) >= maxconf:
+                self.notes.append("%d further rejected behaviours were not replayed (%d violations already confirmed)" % (len(rejs) - n, len(self.rejections)))
+                break
             b = r.get("beh")
             text = behaviours[b] if b is not None and 0 <= b < len(behaviours) else None
             if text is None:
